@@ -487,6 +487,7 @@ class Directive:
         self.inserts = []       # (mode, anchor, lines)
         self.tails = []         # (kv, lines)   R9 tail binding
         self.rebinds = []       # (param, newname)  R10 parameter rebind
+        self.cut = None         # (anchor, return expr)  L4 prefix lifting
 
 
 def parse_template(text):
@@ -578,6 +579,11 @@ def parse_template(text):
                         d.subs.append((unesc(mm.group(1)), unesc(mm.group(2)), int(mm.group(3) or 1)))
                     elif kw == 'ret':
                         d.ret = arg.strip()
+                    elif kw == 'cut':
+                        mm = re.match(r'^before\s+"((?:[^"\\]|\\.)*)"\s+return\s+"((?:[^"\\]|\\.)*)"\s*$', arg.strip())
+                        if not mm:
+                            raise LiftError("template line %d: bad cut directive" % start_line)
+                        d.cut = (unesc(mm.group(1)), unesc(mm.group(2)))
                     elif kw == 'rebind':
                         a_, b_ = arg.split()
                         d.rebinds.append((a_, b_))
@@ -590,7 +596,7 @@ def parse_template(text):
                         raise LiftError("template line %d: unknown directive %r" % (start_line, kw))
                 else:
                     if section is None:
-                        if s2 != '':
+                        if s2 != '' and not s2.startswith('//'):
                             raise LiftError("template line %d: stray text in lift block: %r" % (start_line, s2))
                     else:
                         sec_lines.append(ln2)
@@ -688,6 +694,29 @@ def lift_one(d, repo, canary=False, rename_suffix=None):
     info['span'] = '%s:%d-%d' % (rel, line_of(span[0]), line_of(span[1] - 1))
     info['sha256'] = hashlib.sha256(src[span[0]:span[1]].encode()).hexdigest()
     info['src_first_line'] = line_of(span[0])
+
+    # L4 prefix lifting: keep the body up to (not including) the line that contains the anchor, then return the
+    # given expression.  The lifted function is the *prefix* of the real one (e.g. the request construction that
+    # precedes the channel set-up); what follows the cut is not verified text.
+    if d.cut:
+        anchor, retexpr = d.cut
+        offs = find_code_text(body.s, body.k, anchor)
+        if len(offs) != 1:
+            raise LiftError("%s: cut anchor %r found %d times" % (info['name'], anchor, len(offs)))
+        ls = body.s.rfind('\n', 0, offs[0]) + 1
+        depth = 0
+        for j in range(1, ls):
+            if body.k[j] == CODE:
+                if body.s[j] in OPEN:
+                    depth += 1
+                elif body.s[j] in CLOSE:
+                    depth -= 1
+        if depth != 0:
+            raise LiftError("%s: cut anchor is not at the top level of the body" % info['name'])
+        info['cut'] = {'before': anchor, 'returns': retexpr, 'dropped_source_lines': body.s[ls:].count('\n')}
+        body.replace(ls, len(body.s), '    ' + retexpr + '\n}')
+        if 'as' in h:
+            sig = h['as']
 
     rules = [r for r in RULE_ORDER if r in d.rules]
     if 'arm' in h and 'R5' not in rules:
@@ -825,6 +854,12 @@ def lift_one(d, repo, canary=False, rename_suffix=None):
                 if body.o[p] is not None:
                     offs.append(p)
                 p = body.s.find(anchor, p + 1)
+            if not offs:
+                # fall back to text woven earlier (e.g. the return expression of a cut)
+                p = body.s.find(anchor)
+                while p >= 0:
+                    offs.append(p)
+                    p = body.s.find(anchor, p + 1)
             if len(offs) != 1:
                 raise LiftError("%s: insert anchor %r found %d times" % (info['name'], anchor, len(offs)))
             p = offs[0]
